@@ -15,7 +15,9 @@ Counter = collections.Counter
 PROPS = ['position', 'rotation', 'scale']
 EVENT = {p: f'on_{p}_change' for p in PROPS}
 ROT2 = [0, 42, 359.5, 360, 370, 720.25, -10, -360, 1000.0, -0.5, 0.25,
-        -720, 359.75, 1e6]
+        -720, 359.75, 1e6,
+        # whole numbers beyond 2**53: exactly representable as ints
+        2 ** 53 + 1, -(2 ** 53 + 1), 10 ** 18 + 7, 2 ** 64 + 33]
 COMPS = [0, 1, -1, 0.5, 2, 10.25, -3.5, 100]
 
 
@@ -246,7 +248,10 @@ class Interp:
                 want = self.model[i][prop]
                 if isinstance(want, tuple) and want and want[0] == 'rot2':
                     raw = want[1]
-                    ok = (0 <= got < 360 and (got - raw) % 360 == 0)
+                    # exact arithmetic: the given number reduced modulo 360
+                    from fractions import Fraction
+                    ok = (0 <= got < 360
+                          and Fraction(got) == Fraction(raw) % 360)
                     if not ok:
                         self.fail('stored_value', f't{i}.rotation reads '
                                   f'{got!r} after {raw!r} was given '
@@ -405,8 +410,8 @@ class Interp:
         with the value it stored (values are unique per assignment)."""
         want = Counter()
         for k, (t, prop, val) in enumerate(self.executed):
-            stored = val % 360. if (prop == 'rotation'
-                                    and self.dims[t] == 2) else val
+            stored = float(val % 360) if (prop == 'rotation'
+                                          and self.dims[t] == 2) else val
             if k == 0 and prop == 'rotation' and self.dims[t] == 2:
                 self.model[t][prop] = self.model[t][prop]
             for li in self.reg[t]:
